@@ -288,10 +288,10 @@ class Box(object):
 
 # ---------------------------------------------------------------------------- simulated disk (C28)
 class SimDisk(object):
-    """Rebinds allmydata.util.fileutil.get_available_space (looked up as a module attribute
-    by StorageServer.get_available_space on every call) to
+    """Rebinds os.statvfs (read by allmydata.util.fileutil.get_disk_stats on every
+    StorageServer.get_available_space call) to a disk with 100 root-only bytes and
 
-        max(0, capacity - used(sharedir) - reserved_space)
+        available to the server = max(0, capacity - used(sharedir) - reserved_space)
 
     where used() = sum over share files OUTSIDE incoming/ of their data-region size (file
     size minus 12-byte header minus 72 bytes per lease): a disk that charges completed
@@ -326,13 +326,30 @@ class SimDisk(object):
         self.calls += 1
         return max(0, self.capacity - self.used(whichdir) - reserved_space)
 
+    ROOT_RESERVE = 100      # bytes free for root only (f_bfree - f_bavail), as on ext2/3/4
+
+    def statvfs(self, whichdir):
+        """os.statvfs answer of the simulated disk (block size 1): allmydata.util.fileutil.get_disk_stats /
+        get_available_space - the code that turns these fields and reserved_space into 'available' - run for real"""
+        self.calls += 1
+        free_nonroot = max(0, self.capacity - self.used(whichdir))
+        disk = self
+
+        class _S(object):
+            f_frsize = 1
+            f_bsize = 1
+            f_blocks = disk.capacity + disk.ROOT_RESERVE + 1000
+            f_bfree = free_nonroot + disk.ROOT_RESERVE
+            f_bavail = free_nonroot
+        return _S()
+
     def __enter__(self):
-        self._orig = fileutil.get_available_space
-        fileutil.get_available_space = self.available
+        self._orig = os.statvfs
+        os.statvfs = self.statvfs
         return self
 
     def __exit__(self, *a):
-        fileutil.get_available_space = self._orig
+        os.statvfs = self._orig
         return False
 
 
